@@ -14,7 +14,7 @@
 (* steps are deterministic functions of their inputs), and - for screens and metadata - the number of  *)
 (* unobserved plates.  One action per filesystem mutation of the script (each unlink of rmtree, each   *)
 (* mkdir of makedirs) and per published file of the pipeline, so Crash can fall between any two.        *)
-EXTENDS Naturals, Integers, Sequences, FiniteSets, TLC
+EXTENDS Naturals, Integers, Sequences, FiniteSets, SequencesExt, TLC
 
 CONSTANTS B,          \* --batch-size
           U0,         \* unobserved plates of the prepared training screen (retrospective) / of the input screen
@@ -81,7 +81,7 @@ Content(s, c, k) ==
 (* ------------- the scan: examine_output_dir_to_determine_current_iteration ------------- *)
 Valid(s) == Has(s, "meta") /\ (MetaOnly \/ Has(s, "selected"))
 PlatesOf(i) == {j \in 0..B + 1 : <<i, j>> \in pdirs}
-AscSeq(S) == CHOOSE q \in [1..Cardinality(S) -> S] : \A a, b \in 1..Cardinality(S) : a < b => q[a] < q[b]
+AscSeq(S) == SetToSortSeq(S, <)
 \* scan state: [err, dir, meta, it, pl, last]   (last = the loop variable plate_dir after the loops)
 RECURSIVE ScanPlates(_, _, _, _)
 ScanPlates(i, ps, idx, st) ==
